@@ -9,8 +9,10 @@ What is a *parameter* of the model (everything that `least_squares` receives fro
 compiled extension):
   * `residual`  – the user's residual function (a vectorised function is applied column by column);
   * `norm`      – the user's `Norm` object: `value r` and `grad_hess r proj`;
-  * `boxQP`     – `mujoco.mju_boxQP(dx, scratch, None, H, g, dlower, dupper)`: returns `failed` for
-                  `n_free < 0` and `ok dx` otherwise.
+  * `boxQP`     – `mujoco.mju_boxQP(dx, scratch, None, H, g, dlower, dupper)`: a function of the incoming
+                  contents of the buffer `dx` (the solver warm-starts from it), `H`, `g` and the bounds;
+                  returns `failed dx'` for `n_free < 0` and `ok dx'` otherwise, `dx'` = the buffer afterwards.
+                  The buffer is part of the loop state (`np.zeros((n, 1))` initially).
 Each oracle returns an `Option`; `none` models "the call raised" (the replay driver uses it for "this
 argument was never seen in the logged run"): the run stops with status `aborted`.
 
@@ -37,8 +39,8 @@ inductive Status where
   deriving Repr, DecidableEq
 
 inductive QPResult (α : Type) where
-  /-- `n_free < 0` -/
-  | failed
+  /-- `n_free < 0`; `dx` = contents of the buffer after the call -/
+  | failed (dx : Vec α)
   /-- `n_free >= 0`, the solution written to `dx` -/
   | ok (dx : Vec α)
 
@@ -195,7 +197,8 @@ structure Problem (α : Type) where
   D : Vec α
   residual : Vec α → Option (Vec α)
   norm : Norm α
-  boxQP : Mat α → Vec α → Option (Vec α × Vec α) → Option (QPResult α)
+  /-- arguments: warm start (incoming `dx` buffer), `H`, `g`, `(dlower, dupper)` -/
+  boxQP : Vec α → Mat α → Vec α → Option (Vec α × Vec α) → Option (QPResult α)
 
 structure State (α : Type) where
   x : Vec α
@@ -205,6 +208,8 @@ structure State (α : Type) where
   trace : List (IterLog α)
   /-- every point at which the residual was evaluated, in call order -/
   calls : List (Vec α)
+  /-- the `dx` buffer handed to `mju_boxQP` (warm start) -/
+  dx : Vec α
 
 structure Result (α : Type) where
   x : Vec α
@@ -221,16 +226,17 @@ inductive SearchResult (α : Type) where
   | stopped (st : Status) (mu : α) (nreduc : Nat) (calls : List (Vec α))
 
 /-- One pass of `while armijo < 0: (while not factorizable: …) …`: one call of `mju_boxQP` and, if it
-    factorised, one candidate.  `inr (mu, n_reduc, calls)`: go round again with an increased `mu`. -/
+    factorised, one candidate.  `inr (mu, n_reduc, calls, dx buffer)`: go round again with an increased `mu`. -/
 def searchStep (Q : Problem α) (x grad : Vec α) (hess : Mat α) (db : Option (Vec α × Vec α)) (y : α)
-    (mu : α) (nr : Nat) (calls : List (Vec α)) : SearchResult α ⊕ (α × Nat × List (Vec α)) :=
-  match Q.boxQP (regularize hess mu) grad db with
+    (mu : α) (nr : Nat) (calls : List (Vec α)) (w : Vec α) :
+    SearchResult α ⊕ (α × Nat × List (Vec α) × Vec α) :=
+  match Q.boxQP w (regularize hess mu) grad db with
   | none => .inl (.stopped (.aborted "boxQP") mu nr calls)
-  | some .failed =>
+  | some (.failed w') =>
     if Q.P.muMax ≤ mu then .inl (.stopped .factorizationFailed mu nr calls)
     else
       let m := increaseMu Q.P mu
-      .inr (m.1, m.2, calls)
+      .inr (m.1, m.2, calls, w')
   | some (.ok dx) =>
     let xnew := candidate x Q.D dx
     match Q.residual xnew with
@@ -244,17 +250,17 @@ def searchStep (Q : Problem α) (x grad : Vec α) (hess : Mat α) (db : Option (
           if Q.P.muMax ≤ mu then .inl (.stopped .noImprovement mu nr (calls ++ [xnew]))
           else
             let m := increaseMu Q.P mu
-            .inr (m.1, m.2, calls ++ [xnew])
+            .inr (m.1, m.2, calls ++ [xnew], dx)
         else .inl (.accepted dx xnew rnew red mu nr (calls ++ [xnew]))
 
 /-- The Armijo loop with the factorisation loop inside (`while armijo < 0: while not factorizable: …`). -/
 def search (Q : Problem α) (x grad : Vec α) (hess : Mat α) (db : Option (Vec α × Vec α)) (y : α) :
-    Nat → α → Nat → List (Vec α) → SearchResult α
-  | 0, mu, nr, calls => .stopped .fuelOut mu nr calls
-  | k + 1, mu, nr, calls =>
-    match searchStep Q x grad hess db y mu nr calls with
+    Nat → α → Nat → List (Vec α) → Vec α → SearchResult α
+  | 0, mu, nr, calls, _ => .stopped .fuelOut mu nr calls
+  | k + 1, mu, nr, calls, w =>
+    match searchStep Q x grad hess db y mu nr calls w with
     | .inl r => r
-    | .inr (mu', nr', calls') => search Q x grad hess db y k mu' nr' calls'
+    | .inr (mu', nr', calls', w') => search Q x grad hess db y k mu' nr' calls' w'
 
 /-- the code after the `for` loop: the final log entry -/
 def finish (Q : Problem α) (s : State α) (st : Status) (i : Nat) : Result α :=
@@ -282,7 +288,7 @@ def iterStep (Q : Problem α) (i : Nat) (s : State α) : Result α ⊕ State α 
         if norm2 (gradFree Q.bounds s.x grad) ≤ Q.P.gtol then
           .inl (finish Q { s with calls := calls } .gTol i)
         else
-          match search Q s.x grad hess (dBounds Q.bounds s.x Q.D) y Q.P.innerFuel s.mu s.nreduc calls with
+          match search Q s.x grad hess (dBounds Q.bounds s.x Q.D) y Q.P.innerFuel s.mu s.nreduc calls s.dx with
           | .stopped st mu nr calls' =>
             -- FACTORIZATION_FAILED / NO_IMPROVEMENT: `x`, `r` are not updated
             (match st with
@@ -292,10 +298,10 @@ def iterStep (Q : Problem α) (i : Nat) (s : State α) : Result α ⊕ State α 
             let ratio := reductionRatio red (expectedReduction grad dx hess)
             let trace := s.trace ++ [⟨s.x, y, red, mu⟩]
             if dxTolStop Q.P s.x Q.D dx then
-              .inl (finish Q ⟨xnew, rnew, mu, nr, trace, calls'⟩ .dxTol i)
+              .inl (finish Q ⟨xnew, rnew, mu, nr, trace, calls', dx⟩ .dxTol i)
             else
               let m := updateMu Q.P ratio mu nr
-              .inr ⟨xnew, rnew, m.1, m.2, trace, calls'⟩
+              .inr ⟨xnew, rnew, m.1, m.2, trace, calls', dx⟩
 
 /-- `for i in range(max_iter)`: `rem` iterations remain, the next one has index `i`
     (when the range is exhausted Python's `i` is the last index, `0` for an empty range). -/
@@ -311,7 +317,7 @@ def leastSquares (Q : Problem α) (x0 : Vec α) : Result α :=
   let x := clipStart Q.bounds x0
   match Q.residual x with
   | none => ⟨x, [], .aborted "residual", 0, [], [x], zero⟩
-  | some r => iterate Q Q.P.maxIter 0 ⟨x, r, zero, 0, [], [x]⟩
+  | some r => iterate Q Q.P.maxIter 0 ⟨x, r, zero, 0, [], [x], List.replicate x0.length zero⟩
 
 end
 end MjProof.LeastSquares
